@@ -9,17 +9,18 @@ structure RawMat where
   (fmt nRows nCols bR bC nnz : Nat)        -- fmt: 0 COO, 1 CSR, 2 CSC ; nRows/nCols count blocks
   (sorted diagFirst : Bool)
   (idx1 idx2 vals : List Int)
+  (blockClass : Bool := false)             -- BCOO / BSR / BSC object (announced as fmt + 10), whatever the block size
 deriving Repr, BEq
 
 def rdRawMat : Rd RawMat := do
   let fmt ← rdNat; let nRows ← rdNat; let nCols ← rdNat; let bR ← rdNat; let bC ← rdNat
   let nnz ← rdNat; let s ← rdNat; let d ← rdNat
   let idx1 ← rdVec; let idx2 ← rdVec; let vals ← rdVec
-  return { fmt, nRows, nCols, bR, bC, nnz, sorted := s != 0, diagFirst := d != 0, idx1, idx2, vals }
+  return { fmt := fmt % 10, nRows, nCols, bR, bC, nnz, sorted := s != 0, diagFirst := d != 0, idx1, idx2, vals, blockClass := fmt ≥ 10 }
 
-def fmtName : Nat → String | 0 => "COO" | 1 => "CSR" | 2 => "CSC" | 4 => "BSR" | _ => "?"
+def fmtName : Nat → String | 0 => "COO" | 1 => "CSR" | 2 => "CSC" | 3 => "BCOO" | 4 => "BSR" | 5 => "BSC" | _ => "?"
 
-def RawMat.isBlock (m : RawMat) : Bool := m.bR != 1 || m.bC != 1
+def RawMat.isBlock (m : RawMat) : Bool := m.blockClass || m.bR != 1 || m.bC != 1
 
 /-- split a flat list into consecutive chunks of the given lengths -/
 def chunks {α : Type} : List α → List Nat → List (List α)
